@@ -75,7 +75,7 @@ def gen_case(tp, tier):
         return {'kind': 'sync', 'prog': prog, 'actors': actors, 'knobs': kn,
                 'scenario': 'stopped-waiter'}
     feat = {'tempo_clocks': True, 'sync': kind == 'sync',
-            'control': kind == 'ctl'}
+            'control': kind == 'ctl', 'embed': kind == 'sync'}
     prog = rprog.gen(tp, feat, tier)
     # actors: driver + user threads issuing the same kind of statements
     nr = len(prog['routines'])
@@ -590,9 +590,32 @@ def check_sync(case, res, viol, stats):
             released[r] = released.get(r, 0) + 1
             stats[how] = stats.get(how, 0) + 1
 
+    # an embedded routine runs inside the routine that embeds it: whatever
+    # it waits for, the clock goes on playing that outer routine
+    emb = {}
+    for i, r in enumerate(prog0['routines']):
+        for st in r['body']:
+            if st[0] == 'embed':
+                emb[st[1]] = i
+
+    def top_of(r):
+        while r in emb:
+            r = emb[r]
+        return r
+
     for i, e in enumerate(res['trace']):
         ev = e['ev']
         rid = e['r']
+        if isinstance(rid, int) and e.get('top') is not None \
+                and e['top'] != top_of(rid):
+            viol.add('C11-3', 'nested-routine-outside-its-player',
+                     f'routine {rid} (embedded in routine {top_of(rid)}) '
+                     f'ran event {ev} at trace index {i} while the clock '
+                     f'was playing routine {e["top"]}')
+            return
+        if rid in emb:
+            stats['events-in-embedded-routines'] = stats.get(
+                'events-in-embedded-routines', 0) + 1
         if ev == 'stopclock':
             stopped.add(f't{e["vals"][0]}')
         elif ev == 'cset':
